@@ -1494,6 +1494,6 @@ def replay(record):
 
 MANIFEST = {
     "technique": "TLA+ reference codec of MDL connection tables (V2000 fixed columns, V3000 tokens), SD headers / metadata keys / records and the RDKit bridge (bond-type tables, a step-by-step model of to_mol / from_mol with their hydrogen, kekulize, dative and conformer options against a declarative option table) (specs/C18) model-checked by TLC; every TLC-enumerated input executed against MOLFile, SDFile and to_mol/from_mol; an SDFile as a mutable mapping with a history (SdHist/MCHist) whose state graph is replayed transition by transition; recorded random executions and histories re-computed by TLC",
-    "level_text": "TLC enumerates one-atom molecules over element, coordinate (column-limit neighbours, ties) and charge classes (-15..15 and beyond), all bond types on 2- and 3-atom molecules with several default types, runs of charged atoms (M  CHG continuation), chains of 998..1001 atoms, 999 atoms with 1000 bonds and 45..200 atoms with 990..1203 bonds (each count of the counts line across its limit independently) in the three version modes, SD records over all key-component subsets, header width classes and 1-3 record files; the spec's invariants (round trip at 4 decimals, V2000 lines in their columns, version switch, implemented acceptance test = declarative fit except on named known-bad inputs, bond-type images, RDKit tables inverse on expressible types, header line 52 characters, key grammar round trip) hold on all of them; every input is executed against the real code (V2000 lines character by character, V3000 through the spec's reader, structures read back, RDKit round trips with 2 conformers); 48 molecules of the classes the hydrogen options distinguish (with hydrogen atoms, saturated or not; without hydrogen atoms and with an open valence; without and saturated / metals / ions; aromatic pairs and six-rings; COORDINATION bonds) are taken through to_mol(explicit_hydrogen None/True/False, kekulize, use_dative_bonds) x from_mol(add_hydrogen None/True/False, conformer_id None/'3D'/0) as stacks of 1-3 models (quick: 63 option combinations per molecule, thorough: all 108 and every two-atom molecule over 4 elements x 2 charges x 10 bond types), the step-by-step model agrees with the option table on all of them and every case is executed against the real bridge (identity on atoms where the table demands it, documented refusal, otherwise the molecule as prefix followed by singly bonded hydrogens whose number is decided for neutral C/N/O/halogen atoms with plain bonds); all histories of 2 (thorough: 3) calls out of reload, look at record / header / metadata, move to another name, insert a fresh or a parsed record, delete, set a header field, replace header / metadata, set / delete a metadata item, set the structure - starting from a freshly built and from a read two-record file - are enumerated with the lazy representation in the state, hold the invariants (write -> read is the identity, keys = molecule names, structures readable) and are replayed against the real SDFile with a write -> read observation after every call; seeded random molecules up to 1500 atoms, RDKit stacks of 1-4 models incl. aromatic six-rings with and without hydrogens under all nine pairs of hydrogen options in turn, random SD files and random histories of 3-8 calls are recorded and re-computed by TLC. Every RDKit round trip also checks the frame condition that to_mol / from_mol leave the caller's structure (bonds, coordinates, every annotation) unchanged; a changed argument is an outcome the specification never allows.",
+    "level_text": "TLC enumerates one-atom molecules over element, coordinate (column-limit neighbours, ties) and charge classes (-15..15 and beyond), all bond types on 2- and 3-atom molecules with several default types, runs of charged atoms (M  CHG continuation), chains of 998..1001 atoms, 999 atoms with 1000 bonds and 45..200 atoms with 990..1203 bonds (each count of the counts line across its limit independently) in the three version modes, SD records over all key-component subsets, header width classes and 1-3 record files; the spec's invariants (round trip at 4 decimals, V2000 lines in their columns, version switch, implemented acceptance test = declarative fit except on named known-bad inputs, bond-type images, RDKit tables inverse on expressible types, header line 52 characters, key grammar round trip) hold on all of them; every input is executed against the real code (V2000 lines character by character, V3000 through the spec's reader, structures read back, RDKit round trips with 2 conformers); 48 molecules of the classes the hydrogen options distinguish (with hydrogen atoms, saturated or not; without hydrogen atoms and with an open valence; without and saturated / metals / ions; aromatic pairs and six-rings; COORDINATION bonds) are taken through to_mol(explicit_hydrogen None/True/False, kekulize, use_dative_bonds) x from_mol(add_hydrogen None/True/False, conformer_id None/'3D'/0) as stacks of 1-3 models (quick: 63 option combinations per molecule, thorough: all 108 and every two-atom molecule over 4 elements x 2 charges x 10 bond types), the step-by-step model agrees with the option table on all of them and every case is executed against the real bridge (identity on atoms where the table demands it, documented refusal, otherwise the molecule as prefix followed by singly bonded hydrogens whose number is decided for neutral C/N/O/halogen atoms with plain bonds); all histories of 2 (thorough: 3) calls out of reload, look at record / header / metadata, move to another name, insert a fresh or a parsed record, delete, set a header field, replace header / metadata, set / delete a metadata item, set the structure - starting from a freshly built and from a read two-record file - are enumerated with the lazy representation in the state, hold the invariants (write -> read is the identity, keys = molecule names, structures readable) and are replayed against the real SDFile with a write -> read observation after every call; seeded random molecules up to 1500 atoms, RDKit stacks of 1-4 models incl. aromatic six-rings with and without hydrogens under all nine pairs of hydrogen options in turn, random SD files and random histories of 3-8 calls are recorded and re-computed by TLC. Every RDKit round trip also checks the frame condition that to_mol / from_mol leave the caller's structure (bonds, coordinates, every annotation) unchanged; a changed argument is an outcome the specification never allows. Every second connection-table case of a batch is written into the MOLFile object of the previous case and read from that live object next to the re-parsed text (the content of a MOLFile is a function of the last structure set).",
     "level_note": "Bounded: exhaustive only over the enumerated classes; beyond them recorded random executions. Which Kekule structure RDKit picks is not decided (any valid one is accepted); the number of hydrogens RDKit adds where hydrogens are implicit is decided only for neutral C, N, O, F, Cl, Br atoms with plain bonds within their default valence (elsewhere only their shape: uncharged H, one SINGLE bond to an atom of the molecule); residue-level annotations through RDKit, conformer ids > 0 and '2D' selection, metadata values with empty or blank-padded lines or lines starting with '>' are outside the domain. Trusted: TLC, the TLA+ value parser, numpy, RDKit, the projection.",
 }
